@@ -28,7 +28,7 @@ META = {
              "parsing, and that two generators sharing one definition advanced in every interleaving of their next() calls produce exactly the "
              "results of running them sequentially.",
     "trusted": "as C01; the structural snapshot (spv/structural.py) as the notion of 'definition unchanged'",
-    "bounds": {"quick": {"stream": "T4 [9,10,9], T6 [12,11,12]", "independent": "T4 [9,10,9]", "interleave": "2 generators x 2 packets, 6 schedules"},
+    "bounds": {"quick": {"stream": "T4 [9,10,9], T6 [12,11,12]", "independent": "T4 [9,10,9]", "interleave": "2 generators x 2 packets, 6 schedules", "headers only": "T4 [9,10,8] x 4 option combinations"},
                "thorough": {"stream": "T4 [9,10,9,10], T6 [12,11,12], T5 [9,8,9]", "independent": "T4 [10,9,10], T6 [12,12,11]",
                             "interleave": "2 generators x 3 packets, 20 schedules"}},
     "stubs": ["as C01"],
@@ -207,11 +207,32 @@ def _interleavings(a, b):
     return out
 
 
+class HeadersOnly(e2e.E2E):
+    """ccsds_headers_only=True under every combination of the other options: the items are exactly the raw packets of the stream, in order,
+    whatever the definition would make of them (recognized or not, right length or not); nothing is warned about, nothing is parsed"""
+    kind = "headers-only"
+
+    def run(self, ctx):
+        p = self.job["params"]
+        flags = ctx.choose("flags", 4)
+        parse_bad, yield_unrec = bool(flags & 1), bool(flags & 2)
+        stream, pk = self.build_stream(p["lens"])
+        ys, end = run_gen(self.defn.packet_generator(stream, parse_bad_pkts=parse_bad, yield_unrecognized_packet_errors=yield_unrec, ccsds_headers_only=True),
+                          len(pk) + 1)
+        obl = [("generator ends normally", end == "stop"), ("one item per packet", len(ys) == len(pk)), ("no warnings", not ctx.warnings)]
+        for i, (y, q) in enumerate(zip(ys, pk)):
+            ok = isinstance(y, self.lib.RawPacketData) and len(y.items) == q["len"]
+            obl.append((f"item {i} is the raw packet {i}", ok and z3.And([bv.byte_term(a) == bv.byte_term(b) for a, b in zip(y.items, q["items"])])))
+        obl.append(("definition unchanged by parsing (XML and public attributes)", structural.public_state(self.defn) == self.snap_before))
+        return result("raw" * len(pk), obl, observe={"items": [bv.SymBytes(y.items) for y in ys if hasattr(y, "items")], "end": end, "cls": "ran"},
+                          inputs={"stream": stream, "parse_bad": parse_bad, "yield_unrec": yield_unrec, "template": p["template"], "lens": list(p["lens"])})
+
+
 def make(job):
     p = job["params"]
     xml, clean, _ = templates.get(p["template"])
     lib = bv.install(max(128, 8 * max(p["lens"]) + 64))
-    cls = {"e2e": e2e.E2E, "independent": Independent, "interleave": Interleave, "twin": e2e.Twin}[job["h"]]
+    cls = {"e2e": e2e.E2E, "independent": Independent, "interleave": Interleave, "headers-only": HeadersOnly, "twin": e2e.Twin}[job["h"]]
     h = cls(job)
     h.lib = lib
     h.defn = bv.symbolize_definition(lib.definitions.XtcePacketDefinition.from_xtce(io.BytesIO(xml)))
@@ -231,11 +252,12 @@ def jobs(tier):
     if tier == "quick":
         return [J("e2e", "stream-T6", "T6", [12, 11, 12], flagsets=(0, 3)), J("independent", "indep-T8", "T8", [8, 8, 8], flagsets=(3,)),
                 J("independent", "indep-T4", "T4", [9, 10, 9], flagsets=(1, 2)),
-                J("interleave", "interleave-T6", "T6", [12, 12], concrete_bytes=[0, 6, 7, 8, 9, 10], apid=6)]
+                J("interleave", "interleave-T6", "T6", [12, 12], concrete_bytes=[0, 6, 7, 8, 9, 10], apid=6), J("headers-only", "headers-only-T4", "T4", [9, 10, 8])]
     return [J("e2e", "stream-T4", "T4", [9, 10, 9, 10], flagsets=(0, 3)), J("e2e", "stream-T6", "T6", [12, 11, 12]), J("e2e", "stream-T5", "T5", [9, 8, 9], flagsets=(0, 1)),
             J("independent", "indep-T4", "T4", [10, 9, 10]), J("independent", "indep-T8", "T8", [8, 8, 8]), J("independent", "indep-Blookup", "B|lookup|0", [14, 14], flagsets=(1,)), J("independent", "indep-T6", "T6", [12, 12, 11], flagsets=(0, 3)),
             J("interleave", "interleave-T6", "T6", [12, 12, 12], concrete_bytes=[0, 6, 7, 8, 9, 10], apid=6),
-            J("interleave", "interleave-T4", "T4", [9, 10], concrete_bytes=[0, 2, 3])]
+            J("interleave", "interleave-T4", "T4", [9, 10], concrete_bytes=[0, 2, 3]), J("headers-only", "headers-only-T4", "T4", [9, 10, 8, 11]),
+            J("headers-only", "headers-only-T6", "T6", [12, 7])]
 
 
 def vacuity_jobs():
@@ -248,6 +270,18 @@ _e2e_judge = e2e.judge
 
 
 def concrete(req):     # noqa: F811
+    if req["kind"] == "headers-only":
+        from space_packet_parser.xtce import definitions
+        i = req["input"]
+        xml, _, _ = templates.get(i["template"])
+        d = definitions.XtcePacketDefinition.from_xtce(io.BytesIO(xml))
+        stream = bytes.fromhex(i["stream"]["hex"])
+        import warnings
+        with warnings.catch_warnings(record=True) as rec:
+            warnings.simplefilter("always")
+            ys, end = run_gen(d.packet_generator(stream, parse_bad_pkts=i["parse_bad"], yield_unrecognized_packet_errors=i["yield_unrec"], ccsds_headers_only=True),
+                              len(i["lens"]) + 1)
+        return {"cls": "ran", "items": [{"hex": bytes(y).hex()} for y in ys], "end": end, "nwarn": len(rec)}
     if req["kind"] != "interleave":
         return _e2e_concrete(req)
     from space_packet_parser.xtce import definitions
@@ -285,6 +319,18 @@ def concrete(req):     # noqa: F811
 
 
 def judge(req, got):      # noqa: F811
+    if req["kind"] == "headers-only":
+        if got.get("cls") != "ran":
+            return "error", str(got)[:300]
+        i = req["input"]
+        stream, want, o = bytes.fromhex(i["stream"]["hex"]), [], 0
+        for n in i["lens"]:
+            want.append({"hex": stream[o:o + n].hex()})
+            o += n
+        if got["end"] != "stop" or got["items"] != want or got["nwarn"]:
+            return "reproduced", (f"ccsds_headers_only=True, parse_bad_pkts={i['parse_bad']}, yield_unrecognized={i['yield_unrec']} on template {i['template']} stream "
+                                  f"{stream.hex()}: expected the raw packets {[w['hex'] for w in want]} and no warning; got {[g['hex'] for g in got['items']]} end {got['end']} warnings {got['nwarn']}")
+        return "not-reproduced", "raw packets in order"
     if req["kind"] != "interleave":
         return _e2e_judge(req, got)
     # replay oracle: the same streams run sequentially on a fresh definition
